@@ -12,8 +12,8 @@ from __future__ import annotations
 
 import ast
 
-from ..dataflow import all_def_values
-from ..model import AnalysisError, dotted, unparse, walk_no_nested
+from ..dataflow import all_def_values, reaching_defs
+from ..model import AnalysisError, FuncInfo, dotted, norm_stmt, unparse, walk_no_nested
 from ..norm import NotAffine, Rational, _atom, affine, affine_eq, sym_exec, uf_atom, uf_inner
 from . import c05
 from .c04 import twin_path
@@ -62,18 +62,17 @@ def rule_r3(prog, res) -> None:
 
     sp = prog.func("BinwisePatchwiseArray.sample_patch_sum")
     res.touch(sp)
-    try:
-        paths = list(sym_exec(sp.node.body))
-    except NotAffine as err:
-        raise AnalysisError(f"C03.R3: cannot evaluate sample_patch_sum ({err})")
-    paths = [p for p in paths if p[2] is not None]
-    if len(paths) != 1:
-        raise AnalysisError("C03.R3: sample_patch_sum is expected to be straight-line code")
-    conds, env, ret = paths[0]
-    c = [x for x in ast.walk(ret) if isinstance(x, ast.Call)][0]
-    if len(c.args) < 3:
+    from .. import symx
+
+    spaths = [p for p in symx.explore(prog, sp, inline=symx.inline_private_helpers(prog, public={"get_array"})) if p.outcome == "return" and p.value is not None]
+    if len(spaths) != 1:
+        raise AnalysisError(f"C03.R3: sample_patch_sum is expected to have one returning path ({len(spaths)} found)")
+    ret = spaths[0].value
+    ctor = [x for x in ast.walk(ret) if isinstance(x, ast.Call) and len(x.args) >= 3]
+    if not ctor:
         raise AnalysisError("C03.R3: SampledData(binning, data, samples) construction not recognised")
-    d, s = PE(c.args[1], env, lambda t: t), PE(c.args[2], env, lambda t: t)
+    c = ctor[0]
+    d, s = PE(c.args[1], {}, lambda t: t), PE(c.args[2], {}, lambda t: t)
     arr = Rational(_atom("self.get_array()"))
     A = lambda spec: Rational(uf_atom(f"einsum<{spec}>", arr))  # noqa: E731
     want_d = A("bij->b")
@@ -93,7 +92,7 @@ def rule_r3(prog, res) -> None:
             key_extra="patch-sum-samples",
         )
     # the total is tiled to (num_patches, num_bins): one row per sample
-    tiles = [x for x in calls_in(sp) if (dotted(x.func) or "").endswith("tile")]
+    tiles = [ev.expr for ev in spaths[0].calls("tile")]
     if tiles and len(tiles[0].args) == 2 and isinstance(tiles[0].args[1], ast.Tuple) and "num_patches" in unparse(tiles[0].args[1].elts[0]) and unparse(tiles[0].args[1].elts[1]) == "1":
         res.ok("C03.R3", res.site(sp, "tile"), "total repeated once per patch (rows = samples)")
     else:
@@ -231,10 +230,136 @@ def rule_r5(prog, res) -> None:
     raise AnalysisError(f"C03.R5: deleted positions {unparse(dele[0].args[1])} not recognised")
 
 
+
+
+# ----------------------------------------------------------------------------- R6 no write through a view
+
+
+VIEW_CALLS = {"diagonal", "reshape", "ravel", "asarray", "asanyarray", "atleast_1d", "atleast_2d", "atleast_3d", "squeeze", "swapaxes", "transpose", "view", "broadcast_to", "moveaxis", "expand_dims"}
+
+
+def _einsum_is_view(call: ast.Call) -> bool:
+    """numpy.einsum returns a view of its single operand when no index is summed over ('bii->ib', 'ij->ji')"""
+    if len(call.args) != 2 or not (isinstance(call.args[0], ast.Constant) and isinstance(call.args[0].value, str)) or call.keywords:
+        return False
+    spec = call.args[0].value.replace(" ", "")
+    if "->" not in spec or "," in spec:
+        return False
+    lhs, rhs = spec.split("->")
+    return set(lhs) == set(rhs)
+
+
+def storage_origin(prog, fi: FuncInfo, expr: ast.AST, cfg, IN, at: int, depth: int = 6) -> str:
+    """'storage' when the expression certainly denotes (a view of) an array owned by self or by a caller,
+    'fresh' when it certainly is a new array, else 'unknown'"""
+    if depth <= 0:
+        return "unknown"
+    params = set(fi.param_names())
+    if isinstance(expr, ast.Name):
+        defs = IN.get(at, {}).get(expr.id, set())
+        if not defs:
+            return "unknown"
+        kinds = set()
+        for d in defs:
+            if d == -1:
+                kinds.add("storage" if expr.id in params else "unknown")
+                continue
+            nd = cfg.nodes[d]
+            st = nd.ast
+            if isinstance(st, ast.Assign) and len(st.targets) == 1 and isinstance(st.targets[0], ast.Name):
+                kinds.add(storage_origin(prog, fi, st.value, cfg, IN, d, depth - 1))
+            elif isinstance(st, ast.AugAssign):
+                kinds.add("same")  # in-place: keeps the identity it had
+            else:
+                kinds.add("unknown")
+        kinds.discard("same")
+        return kinds.pop() if len(kinds) == 1 else "unknown"
+    if isinstance(expr, ast.Attribute):
+        if expr.attr == "T":
+            return storage_origin(prog, fi, expr.value, cfg, IN, at, depth - 1)
+        root = expr
+        while isinstance(root, ast.Attribute):
+            root = root.value
+        if isinstance(root, ast.Name) and root.id in params:
+            m = None
+            if fi.cls is not None and root.id == "self":
+                m = prog.find_method(fi.cls, expr.attr)
+            if m is not None and m.is_property:
+                return "unknown"
+            return "storage"
+        return "unknown"
+    if isinstance(expr, ast.Subscript):
+        sl = expr.slice
+        parts = sl.elts if isinstance(sl, ast.Tuple) else [sl]
+        basic = all(isinstance(p_, ast.Slice) or (isinstance(p_, ast.Constant) and (isinstance(p_.value, int) or p_.value is None or p_.value is Ellipsis)) or (isinstance(p_, ast.Attribute) and p_.attr == "newaxis") for p_ in parts)
+        if basic:
+            return storage_origin(prog, fi, expr.value, cfg, IN, at, depth - 1)
+        return "fresh" if any(isinstance(p_, (ast.List, ast.Compare)) for p_ in parts) else "unknown"
+    if isinstance(expr, (ast.BinOp, ast.UnaryOp, ast.Compare, ast.ListComp, ast.List, ast.Tuple, ast.Constant)):
+        return "fresh"
+    if isinstance(expr, ast.Call):
+        name = (dotted(expr.func) or unparse(expr.func)).split(".")[-1]
+        if name == "einsum":
+            return storage_origin(prog, fi, expr.args[1], cfg, IN, at, depth - 1) if _einsum_is_view(expr) else "fresh"
+        if name in VIEW_CALLS:
+            base = expr.func.value if isinstance(expr.func, ast.Attribute) and (dotted(expr.func.value) or "").split(".")[0] not in ("np", "numpy") else (expr.args[0] if expr.args else None)
+            return storage_origin(prog, fi, base, cfg, IN, at, depth - 1) if base is not None else "unknown"
+        tg = prog.resolve_call(fi, expr)
+        funcs = [t for t in tg.funcs() if not t.is_abstract]
+        if tg.ext_names() and not funcs:
+            return "fresh" if any(e.startswith("numpy.") for e in tg.ext_names()) else "unknown"
+        kinds = set()
+        for t in funcs + [m for f_ in tg.funcs() if f_.cls is not None for sub in prog.subclasses(f_.cls) for m in [sub.methods.get(f_.name)] if m is not None and not m.is_abstract]:
+            c2, IN2 = reaching_defs(t.node)
+            for nd in c2.nodes:
+                if nd.kind == "stmt" and isinstance(nd.ast, ast.Return) and nd.ast.value is not None:
+                    kinds.add(storage_origin(prog, t, nd.ast.value, c2, IN2, nd.id, depth - 2))
+        if kinds == {"fresh"}:
+            return "fresh"
+        if "storage" in kinds:
+            return "storage"  # some implementation hands out its own storage
+        return "unknown"
+    return "unknown"
+
+
+def rule_r6(prog, res) -> None:
+    """resampling and derived quantities never update an array in place that is (a view of) the storage of a
+    container or of an argument: the inputs of a jackknife stay what they were"""
+    n_aug = 0
+    for fi in prog.funcs:
+        if not fi.module.name.startswith(("yaw.correlation", "yaw.redshifts")):
+            continue
+        augs = [x for x in walk_no_nested(fi.node) if isinstance(x, ast.AugAssign) and isinstance(x.target, ast.Name)]
+        if not augs:
+            continue
+        cfg, IN = reaching_defs(fi.node)
+        for a in augs:
+            nodes = cfg.nodes_of(a)
+            if not nodes:
+                continue
+            n_aug += 1
+            res.touch(fi)
+            kind = storage_origin(prog, fi, ast.Name(id=a.target.id, ctx=ast.Load()), cfg, IN, nodes[0].id)
+            if kind == "storage":
+                res.violation(
+                    "C03.R6",
+                    fi,
+                    a,
+                    f"`{norm_stmt(a)}` updates in place an array that is a view of the container's (or an argument's) storage: the stored pair counts / samples are overwritten, "
+                    "every later sample or sum is computed from corrupted inputs",
+                    key_extra=f"inplace-on-view-{fi.qualname}-{a.target.id}",
+                )
+            else:
+                res.ok("C03.R6", res.site(fi, norm_stmt(a)[:50]), f"in-place update of a {kind} array (not a view of stored data)", nontrivial=kind == "fresh")
+    if n_aug == 0:
+        res.ok("C03.R6", "no in-place updates", "no augmented assignment to a local array in the resampling modules", nontrivial=False)
+
+
 RULES = [
     ("C03.R1", rule_r1, QUICK),
     ("C03.R2", rule_r2, QUICK),
     ("C03.R3", rule_r3, QUICK),
     ("C03.R4", rule_r4, QUICK),
     ("C03.R5", rule_r5, QUICK),
+    ("C03.R6", rule_r6, QUICK),
 ]
